@@ -97,19 +97,29 @@ def _alpha_names(tier):
     return ["skp_com_d3c"] if tier == "quick" else list(ALPHABETS)
 
 
+QUICK_ENV = "ctc_env_marked 4 60 2"     # quick tier: at most two markers (data 0x3C) inside the buffer window + incoming word
+
+
+def _env(tier):
+    return QUICK_ENV if tier == "quick" else "(fun _ _ => true)"
+
+
 def obligations(targets, tier):
     t = targets[0]
     obs = []
     for a in _alpha_names(tier):
-        alpha = f"ctc_alphabet_small 4 {_syms(a)}" if tier == "quick" else f"ctc_alphabet 4 {_syms(a)}"
+        # thorough: the first alphabet with every invalid word too, the others with the uniform invalid words only
+        alpha = (f"ctc_alphabet 4 {_syms(a)}" if (tier != "quick" and a == "skp_com_d3c") else f"ctc_alphabet_small 4 {_syms(a)}")
+        extra = (" in which the marker symbol 0x3c (data) occurs at most twice among the 8 buffer positions and the incoming word"
+                 if tier == "quick" else "")
         obs.append(tie_ss.rlock_alpha(
             f"ob_ctc_{a}", t,
             St="ctc_state", mstep="ctc_mstep 4", enc="ctc_enc", dec="ctc_dec 4",
             wf="ctc_wf 4", dec_enc="ctc_dec_enc 4 ctc_cw4", wf_step="ctc_wf_step 4",
             m0="ctc_init 4", wf_m0="apply ctc_wf_init.",
-            alphabet=alpha, norm="ctc_norm 4", fuel=5000,
+            alphabet=alpha, norm="ctc_norm 4", env=_env(tier), fuel=5000,
             describe=f"CTCSkipRemover == shift-register model on all traces of words over symbols {[hex(s) for s in ALPHABETS[a]]} "
-                     f"(SKP at any byte positions, valid or not, downstream ready)"))
+                     f"(SKP at any byte positions, valid or not, downstream ready)" + extra))
     obs.append(tie.corr("corr_ctc", t, mstep="ctc_mstep 4", m0="ctc_init 4", norm="ctc_norm 4",
                         describe="model vs simulator, full-width random symbols, SKP bursts, sink.valid gaps and source.ready stalls"))
     return obs
@@ -117,21 +127,23 @@ def obligations(targets, tier):
 
 def tie_theorems(targets, tier):
     G = targets[0].modname
+    env = _env(tier)
     s = ""
     for a in _alpha_names(tier):
         ob = f"ob_ctc_{a}"
         s += f"""
 Theorem C32_{ob} : forall tr, Forall (fun i => In i {ob}.alpha) tr ->
+  env_ok ctc_state (ctc_mstep 4) ({env}) (ctc_init 4) tr = true ->
   map (ctc_norm 4) (run {G}.step {G}.init tr) = map (ctc_eout 4) (trun (sp_step 4) [] (map (ctc_din 4) tr)) /\\
   exists pending, (length pending < 8)%nat /\\
     out_stream (map (ctc_dout 4) (run {G}.step {G}.init tr)) ++ pending = keep (in_stream (map (ctc_din 4) tr)).
 Proof.
-  intros tr H.
+  intros tr H HE.
   assert (HR : Forall (ready_bit 4) tr).
   {{ eapply Forall_impl; [|exact H]. intros i Hi.
     assert (HA : forallb (fun i => N.testbit i 37) {ob}.alpha = true) by (vm_compute; reflexivity).
     rewrite forallb_forall in HA. exact (HA i Hi). }}
-  pose proof ({ob}_T.tie tr H (env_ok_true _ _ _ _)) as T. unfold {ob}.norm in T.
+  pose proof ({ob}_T.tie tr H HE) as T. unfold {ob}.norm in T.
   split.
   - rewrite T. apply ctc_packed_refines; [lia | exact HR].
   - destruct (ctc_packed_stream 4 ltac:(lia) tr HR) as (p & Hp & He). exists p. split; [exact Hp|].
@@ -155,8 +167,8 @@ LEVEL_TEXT = ("Machine-checked proof. (1) For every word size W >= 1 and every i
               "equal to that packed model on all traces over 3-symbol alphabets {SKP,a,b} (all 81 SKP/non-SKP word shapes) by certified "
               "product reachability, giving C32_ob_ctc_<alphabet>: netlist output stream = SKP-filtered input stream.")
 LEVEL_NOTE = ("Trusted: Coq kernel + vm_compute, Amaranth elaboration, nir2coq.py/Netlist.v (validated each run against pysim). "
-              "The netlist tie is a theorem only for words over the listed 3-symbol alphabets (quick: {SKP, COM, data 0x3C}; thorough: three "
-              "alphabets, all invalid words too); for arbitrary 32+4-bit words the model is compared with the simulator (correspondence, "
+              "The netlist tie is a theorem only for words over the listed 3-symbol alphabets (quick: {SKP, COM, data 0x3C} restricted to traces with at most two 0x3C "
+              "markers inside the 8-symbol buffer window at any time; thorough: three alphabets without that restriction, one of them with all invalid words too); for arbitrary 32+4-bit words the model is compared with the simulator (correspondence, "
               "incl. source.ready = 0 phases). Behaviour under back-pressure is modelled but not part of the property. "
               "The module is not parametric in /repo (W = 4 is fixed by USBRawSuperSpeedStream and the literal 8 in word_position).")
 TECHNIQUE = ("Rocq proof: simulation relation shift-register -> symbol FIFO (all W, all traces) + certified product-reachability "
